@@ -283,6 +283,15 @@ func (e *env) peerScript(l *link, items int, allowBad bool) {
 		if l.datagram && kind == sendJunk && dsim.Choose(2) == 0 {
 			kind = sendValid
 		}
+		if e.peerAPHeartbeats && dsim.Choose(4) == 0 {
+			// an ArduPilot system announces itself (a new identity each time): the node answers
+			// with stream requests from its reader goroutine
+			l.apCount++
+			if l.sendHeartbeatAs(byte(3+l.apCount*5+l.id), byte(1+l.apCount%3), 3) != nil {
+				return
+			}
+			dsim.EnsureReleased("script")
+		}
 		if err := l.send(kind, split); err != nil {
 			return
 		}
